@@ -2,6 +2,13 @@ import Mathlib.Tactic.Ring
 import Mathlib.Tactic.Linarith
 import Mathlib.Tactic.Positivity
 import SqlDt.Model.F64
+/-
+  Lemmas/FloatCore: the theory of `F64.roundPos` (round-to-nearest-even of a positive rational):
+  decomposition into exponent choice / quotient rounding / carry, the bracket `2^52 ≤ v/2^e < 2^53`,
+  the half-ulp specification, invariance under the representation of the rational (`roundPos_congr`),
+  "nearest representable wins" (`roundPos_of_near`), magnitude and grid lemmas, and the exact-value
+  interface (`Rep`, `mul_fin`, `div_fin`, `round_exact`, `ofInt_fin`).
+-/
 namespace SqlDt.Lemmas
 open SqlDt
 
@@ -364,6 +371,7 @@ theorem roundPos_of_near (num den m0 : Nat) (e0 : Int) (hn : 0 < num) (hd : 0 < 
   rw [if_neg (by omega)]
 
 
+set_option exponentiation.threshold 2048 in
 theorem roundPos_isSome (num den : Nat) (hn : 0 < num) (hd : 0 < den) (hv : num < 2 ^ 1023 * den) :
     ∃ m e, F64.roundPos num den = some (m, e) := by
   obtain ⟨hb1, _⟩ := rpE2_bracket num den hn hd
@@ -436,11 +444,12 @@ theorem grid_ge {m den num D G : Nat} (hd : 0 < den)
   generalize G * den = Z at *
   omega
 
+set_option exponentiation.threshold 2048 in
 /-- Rounding a positive rational below `2^j`, `j ≤ 51`: a finite result with negative exponent. -/
 theorem round_small (s : Bool) (num den j : Nat) (hn : 0 < num) (hd : 0 < den) (hj : j ≤ 51)
     (hv : num < 2 ^ j * den) :
-    ∃ m D : Nat, ∃ e : Int, F64.round s num den = F64.fin s m e ∧ e < 0 ∧ D = 2 ^ (-e).toNat ∧
-      2 ^ (52 - j) ≤ D ∧ m < 2 ^ 53 ∧
+    ∃ m D : Nat, ∃ e : Int, F64.round s num den = F64.fin s m e ∧ e < 0 ∧ e ≤ (j : Int) - 52 ∧
+      D = 2 ^ (-e).toNat ∧ 2 ^ (52 - j) ≤ D ∧ m < 2 ^ 53 ∧
       2 * ((m * den : Nat) - (num * D : Nat) : Int).natAbs ≤ den := by
   have hv' : num < 2 ^ 1023 * den := by
     have : 2 ^ j * den ≤ 2 ^ 1023 * den := Nat.mul_le_mul_right _ (Nat.pow_le_pow_right (by decide) (by omega))
@@ -450,8 +459,138 @@ theorem round_small (s : Bool) (num den j : Nat) (hn : 0 < num) (hd : 0 < den) (
   have he := exp_le_of_lt num den m e j h4 h5 hv
   have e0 : e.toNat = 0 := by omega
   rw [e0, Nat.pow_zero, Nat.mul_one, Nat.one_mul] at h5
-  refine ⟨m, 2 ^ (-e).toNat, e, ?_, by omega, rfl, Nat.pow_le_pow_right (by decide) (by omega), h1, h5⟩
+  refine ⟨m, 2 ^ (-e).toNat, e, ?_, by omega, he, rfl, Nat.pow_le_pow_right (by decide) (by omega), h1, h5⟩
   unfold F64.round
   rw [if_neg (by omega), h]
+
+
+/-- `m·2^e = a/b` -/
+def Rep (m : Nat) (e : Int) (a b : Nat) : Prop := m * 2 ^ e.toNat * b = a * 2 ^ (-e).toNat
+
+/-- canonical form (with powers written as `2^k`) -/
+def CanonME (m : Nat) (e : Int) : Prop :=
+  m < 2 ^ 53 ∧ F64.EMIN ≤ e ∧ e ≤ F64.EMAX ∧ (2 ^ 52 ≤ m ∨ e = F64.EMIN)
+
+theorem round_exact (s : Bool) (num den m0 : Nat) (e0 : Int) (hd : 0 < den) (hc : CanonME m0 e0)
+    (hr : Rep m0 e0 num den) : F64.round s num den = F64.fin s m0 e0 := by
+  obtain ⟨c1, c2, c3, c4⟩ := hc
+  unfold Rep at hr
+  unfold F64.round
+  by_cases h0 : num = 0
+  · rw [if_pos h0]
+    subst h0
+    rw [Nat.zero_mul] at hr
+    have hm : m0 = 0 := by
+      rcases Nat.mul_eq_zero.mp hr with h | h
+      · rcases Nat.mul_eq_zero.mp h with h | h
+        · exact h
+        · exact absurd h (by positivity)
+      · omega
+    subst hm
+    have : e0 = F64.EMIN := by rcases c4 with h | h; (exact absurd h (by decide)); exact h
+    subst this; rfl
+  · rw [if_neg h0]
+    have hr' : num * 2 ^ (-e0).toNat = m0 * (den * 2 ^ e0.toNat) := by rw [← hr]; ring
+    have hdpos : 0 < den * 2 ^ e0.toNat := by positivity
+    rw [roundPos_of_near num den m0 e0 (by omega) hd c1 c2 c3]
+    · rcases c4 with h | h
+      · left
+        rw [hr', Nat.pow_add]
+        calc den * (2 ^ 52 * 2 ^ e0.toNat) = 2 ^ 52 * (den * 2 ^ e0.toNat) := by ring
+          _ ≤ _ := Nat.mul_le_mul_right _ h
+      · right; exact h
+    · rw [hr', Nat.mul_assoc]; omega
+    · rw [hr', Nat.add_mul, Nat.mul_assoc]; omega
+
+theorem exists_rep_nat (N : Nat) (h0 : 0 < N) (h1 : N ≤ 2 ^ 53) :
+    ∃ m e, CanonME m e ∧ 2 ^ 52 ≤ m ∧ Rep m e N 1 := by
+  by_cases hN : N = 2 ^ 53
+  · refine ⟨2 ^ 52, 1, ⟨by decide, by decide, by decide, Or.inl (Nat.le_refl _)⟩, Nat.le_refl _, ?_⟩
+    subst hN; unfold Rep; decide
+  · have hlt : N < 2 ^ 53 := by omega
+    have ha1 : 2 ^ N.log2 ≤ N := Nat.log2_self_le (by omega)
+    have ha2 : N < 2 ^ (N.log2 + 1) := Nat.lt_log2_self
+    have ha3 : N.log2 < 53 := (Nat.log2_lt (by omega)).mpr hlt
+    generalize N.log2 = a at *
+    have hp : 2 ^ a * 2 ^ (52 - a) = 2 ^ 52 := by rw [← Nat.pow_add]; congr 1; omega
+    have hp' : 2 ^ (a + 1) * 2 ^ (52 - a) = 2 ^ 53 := by rw [← Nat.pow_add]; congr 1; omega
+    have hE : F64.EMIN = -1074 := rfl
+    have hE' : F64.EMAX = 971 := rfl
+    refine ⟨N * 2 ^ (52 - a), (a : Int) - 52, ⟨?_, by omega, by omega, Or.inl ?_⟩, ?_, ?_⟩
+    · rw [← hp']; exact Nat.mul_lt_mul_of_pos_right ha2 (by positivity)
+    · rw [← hp]; exact Nat.mul_le_mul_right _ ha1
+    · rw [← hp]; exact Nat.mul_le_mul_right _ ha1
+    · unfold Rep
+      have e1 : ((a : Int) - 52).toNat = 0 := by omega
+      have e2 : (-((a : Int) - 52)).toNat = 52 - a := by omega
+      rw [e1, e2]; ring
+
+theorem mul_fin (s t : Bool) {m1 m2 a1 b1 a2 b2 : Nat} {e1 e2 : Int} (hb1 : 0 < b1) (hb2 : 0 < b2)
+    (h1 : Rep m1 e1 a1 b1) (h2 : Rep m2 e2 a2 b2) :
+    F64.mul (F64.fin s m1 e1) (F64.fin t m2 e2) = F64.round (s != t) (a1 * a2) (b1 * b2) := by
+  unfold Rep at h1 h2
+  unfold F64.mul
+  simp only [pow2_eq]
+  apply round_congr _ (by positivity) (by positivity)
+  apply Nat.eq_of_mul_eq_mul_right (show 0 < 2 ^ e1.toNat * 2 ^ e2.toNat by positivity)
+  calc m1 * m2 * 2 ^ (e1 + e2).toNat * (b1 * b2) * (2 ^ e1.toNat * 2 ^ e2.toNat)
+      = (m1 * 2 ^ e1.toNat * b1) * (m2 * 2 ^ e2.toNat * b2) * 2 ^ (e1 + e2).toNat := by ring
+    _ = (a1 * 2 ^ (-e1).toNat) * (a2 * 2 ^ (-e2).toNat) * 2 ^ (e1 + e2).toNat := by rw [h1, h2]
+    _ = a1 * a2 * 2 ^ ((-e1).toNat + (-e2).toNat + (e1 + e2).toNat) := by rw [Nat.pow_add, Nat.pow_add]; ring
+    _ = a1 * a2 * 2 ^ ((-(e1 + e2)).toNat + e1.toNat + e2.toNat) := by congr 2; omega
+    _ = _ := by rw [Nat.pow_add, Nat.pow_add]; ring
+
+theorem div_fin (s t : Bool) {m1 m2 a1 b1 a2 b2 : Nat} {e1 e2 : Int} (hb1 : 0 < b1) (hb2 : 0 < b2)
+    (hm2 : m2 ≠ 0) (h1 : Rep m1 e1 a1 b1) (h2 : Rep m2 e2 a2 b2) :
+    F64.div (F64.fin s m1 e1) (F64.fin t m2 e2) = F64.round (s != t) (a1 * b2) (b1 * a2) := by
+  unfold Rep at h1 h2
+  have hm2' : 0 < m2 := by omega
+  have ha2 : 0 < a2 := by
+    rcases Nat.eq_zero_or_pos a2 with h | h
+    · subst h
+      rw [Nat.zero_mul] at h2
+      have : 0 < m2 * 2 ^ e2.toNat * b2 := by positivity
+      omega
+    · exact h
+  unfold F64.div
+  simp only [pow2_eq, hm2, if_false]
+  apply round_congr _ (by positivity) (by positivity)
+  apply Nat.eq_of_mul_eq_mul_right (show 0 < 2 ^ e1.toNat * 2 ^ (-e2).toNat by positivity)
+  calc m1 * 2 ^ (e1 - e2).toNat * (b1 * a2) * (2 ^ e1.toNat * 2 ^ (-e2).toNat)
+      = (m1 * 2 ^ e1.toNat * b1) * (a2 * 2 ^ (-e2).toNat) * 2 ^ (e1 - e2).toNat := by ring
+    _ = (a1 * 2 ^ (-e1).toNat) * (m2 * 2 ^ e2.toNat * b2) * 2 ^ (e1 - e2).toNat := by rw [h1, h2]
+    _ = a1 * b2 * m2 * 2 ^ ((-e1).toNat + e2.toNat + (e1 - e2).toNat) := by rw [Nat.pow_add, Nat.pow_add]; ring
+    _ = a1 * b2 * m2 * 2 ^ ((-(e1 - e2)).toNat + e1.toNat + (-e2).toNat) := by congr 2; omega
+    _ = _ := by rw [Nat.pow_add, Nat.pow_add]; ring
+
+theorem truncInt_rep (s : Bool) {m N : Nat} {e : Int} (h : Rep m e N 1) :
+    F64.truncInt s m e = if s then -(N : Int) else (N : Int) := by
+  unfold Rep at h
+  unfold F64.truncInt
+  simp only [pow2_eq, Int.ofNat_eq_natCast]
+  by_cases he : e ≥ 0
+  · have : (-e).toNat = 0 := by omega
+    rw [this, Nat.pow_zero, Nat.mul_one, Nat.mul_one] at h
+    rw [if_pos he, h]
+  · have : e.toNat = 0 := by omega
+    rw [this, Nat.pow_zero, Nat.mul_one, Nat.mul_one] at h
+    rw [if_neg he, h, Nat.mul_div_cancel _ (by positivity)]
+
+theorem ofInt_fin (n : Int) (h0 : n ≠ 0) (h : n.natAbs ≤ 2 ^ 53) :
+    ∃ m e, F64.ofInt n = F64.fin (decide (n < 0)) m e ∧ CanonME m e ∧ 2 ^ 52 ≤ m ∧ Rep m e n.natAbs 1 := by
+  obtain ⟨m, e, hc, hm, hr⟩ := exists_rep_nat n.natAbs (by omega) h
+  exact ⟨m, e, round_exact _ _ _ _ _ (by decide) hc hr, hc, hm, hr⟩
+
+theorem sign_mul (a b : Int) (ha : a ≠ 0) (hb : b ≠ 0) :
+    decide (a * b < 0) = (decide (a < 0) != decide (b < 0)) := by
+  rcases Int.lt_or_gt_of_ne ha with h1 | h1 <;> rcases Int.lt_or_gt_of_ne hb with h2 | h2
+  · have := Int.mul_pos_of_neg_of_neg h1 h2
+    rw [decide_eq_true h1, decide_eq_true h2, decide_eq_false (by omega)]; rfl
+  · have := Int.mul_neg_of_neg_of_pos h1 h2
+    rw [decide_eq_true h1, decide_eq_false (by omega : ¬ b < 0), decide_eq_true this]; rfl
+  · have := Int.mul_neg_of_pos_of_neg h1 h2
+    rw [decide_eq_false (by omega : ¬ a < 0), decide_eq_true h2, decide_eq_true this]; rfl
+  · have := Int.mul_pos h1 h2
+    rw [decide_eq_false (by omega : ¬ a < 0), decide_eq_false (by omega : ¬ b < 0), decide_eq_false (by omega)]; rfl
 
 end SqlDt.Lemmas
